@@ -218,7 +218,7 @@ impl DbInner {
 		let mut columns = Vec::with_capacity(metadata.columns.len());
 		let mut commit_overlay = Vec::with_capacity(metadata.columns.len());
 		let log = Log::open(options)?;
-		let last_enacted = log.replay_record_id().unwrap_or(2) - 1;
+		let last_enacted = log.replay_record_id().unwrap_or(2).saturating_sub(1);
 		for c in 0..metadata.columns.len() {
 			let column = Column::open(c as ColId, options, &metadata)?;
 			commit_overlay.push(CommitOverlay::new());
@@ -1143,11 +1143,15 @@ impl DbInner {
 					reader.record_id(),
 				);
 				if validation_mode {
-					if reader.record_id() != self.last_enacted.load(Ordering::Relaxed) + 1 {
+					let last_enacted = self.last_enacted.load(Ordering::Relaxed);
+					// `u64::MAX` is never a valid record id: the id counter can't advance past it.
+					if Some(reader.record_id()) != last_enacted.checked_add(1) ||
+						reader.record_id() == u64::MAX
+					{
 						log::warn!(
 							target: "parity-db",
-							"Log sequence error. Expected record {}, got {}",
-							self.last_enacted.load(Ordering::Relaxed) + 1,
+							"Log sequence error. Last enacted record {}, got {}",
+							last_enacted,
 							reader.record_id(),
 						);
 						drop(reader);
@@ -1222,7 +1226,20 @@ impl DbInner {
 									return Ok(false)
 								}
 							},
-							LogAction::DropTable(_) | LogAction::DropRefCountTable(_) => continue,
+							LogAction::DropTable(id) =>
+								if self.columns.get(id.col() as usize).is_none() {
+									log::warn!(target: "parity-db", "Error validating log: invalid column id {}.", id.col());
+									drop(reader);
+									self.log.clear_replay_logs();
+									return Ok(false)
+								},
+							LogAction::DropRefCountTable(id) =>
+								if self.columns.get(id.col() as usize).is_none() {
+									log::warn!(target: "parity-db", "Error validating log: invalid column id {}.", id.col());
+									drop(reader);
+									self.log.clear_replay_logs();
+									return Ok(false)
+								},
 						}
 					}
 					reader.reset()?;
